@@ -106,3 +106,16 @@ def max_block_depth(stmts):
                 else:
                     best = max(best, 1 + max_block_depth(inner))
     return best
+
+
+def max_loop_depth(stmts):
+    """deepest nesting of loop / try / with statements (the ones CPython's static block limit of 20 counts)"""
+    best = 0
+    for s in stmts:
+        own = 1 if isinstance(s, (ast.While, ast.For, ast.Try, ast.With)) else 0
+        for fieldname in ('body', 'orelse', 'finalbody'):
+            sub = getattr(s, fieldname, None)
+            if sub and isinstance(sub, list) and not isinstance(s, (ast.FunctionDef, ast.ClassDef)):
+                best = max(best, own + max_loop_depth([x for x in sub if isinstance(x, ast.stmt)]))
+        best = max(best, own)
+    return best
